@@ -41,6 +41,12 @@ def bytes_for(rng, L, mods):
         v = gen.limb_value(rng, q)
         hi = rng.getrandbits(8 * (L - 32)) if L > 32 and rng.random() < 0.5 else 0
         return ((hi << 256) | v).to_bytes(L, 'big'), 'limbs'
+    if k == 9 and L > 32:
+        # the high part (bytes above the low 32) and the low 32 bytes each taken from the boundary values: e.g. p || X, (r-1) || 0
+        bvals = [m_ for m_ in mods] + [mods[0] - 1, mods[0] + 1, (1 << 256) - 1, (1 << 256) - mods[0], 1, 0, 1 << 255]
+        hi = rng.choice(bvals) % (1 << (8 * (L - 32)))
+        lo = rng.choice(bvals + [rng.getrandbits(256), rng.getrandbits(64)]) % (1 << 256)
+        return ((hi << 256) | lo).to_bytes(L, 'big'), 'boundary-halves'
     if k == 7:
         return bytes([0] * (L - 1) + [rng.randrange(256)]), 'small'
     if k == 8:
@@ -128,6 +134,12 @@ def run(ctx, spec):
                     s = ('0' * rng.randrange(1, 6) + s)[:160]
                 if rng.random() < 0.2:
                     s = str(rng.choice([p - 1, p, p + 1, 2 * p, (1 << 256) - 1, 1 << 256, p * p, 10 ** 77, 10 ** 78]))
+                elif rng.random() < 0.2:
+                    # a decimal prefix that is exactly (a small multiple of) the modulus or 2^256, then a long tail: an accumulator
+                    # that is not fully reduced after the prefix shows up only many digits later
+                    pre = str(rng.choice([p, p, 2 * p, 3 * p, p - 1, p + 1, 1 << 256, (1 << 256) - 1, r if f == 'fq' else q]))
+                    tail = ''.join(rng.choice('0123456789') if rng.random() < 0.7 else rng.choice('79') for _ in range(rng.choice([1, 10, 40, 76, 77, 78, 80, 82])))
+                    s = (pre + tail)[:160]
                 add('_ %s.from_str %s' % (f, s.encode().hex()), '%s.from_str/digits' % f, 'ok ' + h32(int(s) % p), ('str', f, s), int(s) != 0)
             elif k < 9:
                 s = rng.choice(STRINGS_BAD)
